@@ -306,4 +306,120 @@ theorem toInputLoop_some (l : LexedStr) : ∀ (n i : Nat) (st : ToInputState), I
     simp only [toInputLoop, h1]
     exact ih (i + 1) st1 hinv1 (fun j h1 h2 => hacc j (by omega) (by omega))
 
+
+/-- one iteration of `to_input`, with the kinds pushed -/
+theorem toInputStep_spec (l : LexedStr) (i : Nat) (st : ToInputState) (hinv : InputInv st)
+    (k : SyntaxKind) (hk : l.kindAt i = some k) (ht : (l.textAt i).isSome) :
+    ∃ st', toInputStep l i st = some st' ∧ InputInv st' ∧
+      st'.res.kind = st.res.kind ++ (if k.isTrivia then [] else [k]) := by
+  obtain ⟨t, ht⟩ := Option.isSome_iff_exists.mp ht
+  obtain ⟨hlen, hwj⟩ := hinv
+  simp only [toInputStep, hk, ht]
+  split
+  · exact ⟨_, rfl, ⟨hlen, by simp⟩, by simp⟩
+  · have h1 : ∃ res, (if st.wasJoint = true then st.res.wasJoint else some st.res) = some res ∧
+        res.joint.length = res.kind.length ∧ res.kind = st.res.kind := by
+      split
+      · obtain ⟨r, hr, hrk, hrj⟩ := wasJoint_some st.res hlen (hwj ‹_›)
+        exact ⟨r, hr, by rw [hrj, hrk, hlen], hrk⟩
+      · exact ⟨_, rfl, hlen, rfl⟩
+    obtain ⟨res, hres, hreslen, hreskind⟩ := h1
+    rw [hres]
+    have hpush : (res.push k).joint.length = (res.push k).kind.length := by
+      simp [Input.push, hreslen]
+    have hpne : (res.push k).kind ≠ [] := by simp [Input.push]
+    have hpk : (res.push k).kind = st.res.kind ++ [k] := by simp [Input.push, hreskind]
+    simp only []
+    split
+    · split
+      · obtain ⟨r, hr, hrk, hrj⟩ := wasJoint_some (res.push k) hpush hpne
+        rw [hr]
+        exact ⟨_, rfl, ⟨by simp only []; rw [hrj, hrk, hpush], fun _ => by simp only []; rw [hrk]; exact hpne⟩,
+          by simp only []; rw [hrk, hpk]⟩
+      · exact ⟨_, rfl, ⟨hpush, fun _ => hpne⟩, hpk⟩
+    · exact ⟨_, rfl, ⟨hpush, fun _ => hpne⟩, hpk⟩
+
+theorem toInputLoop_kinds (l : LexedStr) : ∀ (ks : List SyntaxKind) (i : Nat) (st : ToInputState),
+    InputInv st →
+    (∀ j (hj : j < ks.length), l.kindAt (i + j) = some ks[j] ∧ (l.textAt (i + j)).isSome) →
+    ∃ st', toInputLoop l ks.length i st = some st' ∧ InputInv st' ∧
+      st'.res.kind = st.res.kind ++ ks.filter (fun k => !k.isTrivia) := by
+  intro ks
+  induction ks with
+  | nil => intro i st hinv _; exact ⟨st, rfl, hinv, by simp⟩
+  | cons k ks ih =>
+    intro i st hinv hacc
+    have h0 := hacc 0 (by simp)
+    simp only [Nat.add_zero, List.getElem_cons_zero] at h0
+    obtain ⟨st1, h1, hinv1, hk1⟩ := toInputStep_spec l i st hinv k h0.1 h0.2
+    simp only [List.length_cons, toInputLoop, h1]
+    obtain ⟨st2, h2, hinv2, hk2⟩ := ih (i + 1) st1 hinv1 (fun j hj => by
+      have := hacc (j + 1) (by simp; omega)
+      simp only [List.getElem_cons_succ] at this
+      rw [show i + 1 + j = i + (j + 1) by omega]; exact this)
+    refine ⟨st2, h2, hinv2, ?_⟩
+    rw [hk2, hk1, List.filter_cons]
+    cases k.isTrivia <;> simp
+
+/-- `to_input` of a lexed text: the kinds are the non-trivia kinds of the token table, in order -/
+theorem toInput_kinds (uc : UC) (s : List Char) :
+    ∃ inp, (lexedOf uc s).toInput = some inp ∧
+      inp.kind = ((tokenize uc s).map synKind).filter (fun k => !k.isTrivia) := by
+  obtain ⟨st, hst, _, hk⟩ := toInputLoop_kinds (lexedOf uc s) ((tokenize uc s).map synKind) 0
+    ⟨Input.empty, false⟩ ⟨rfl, by simp⟩ (fun j hj => by
+      have hj' : j < (tokenize uc s).length := by simpa using hj
+      rw [Nat.zero_add, lexedOf_kindAt uc s j hj', lexedOf_textAt uc s j hj']
+      simp)
+  refine ⟨st.res, ?_, by simpa [Input.empty] using hk⟩
+  simp only [LexedStr.toInput, lexedOf_len]
+  simp only [List.length_map] at hst
+  rw [hst]; rfl
+
+/-! ### the token table as seen through the accessors -/
+
+/-- `(kind(i), text(i))` for `i = 0 … len()-1` -/
+def table (l : LexedStr) : List (Option SyntaxKind × Option (List Char)) :=
+  (List.range l.len).map fun i => (l.kindAt i, l.textAt i)
+
+theorem table_lexedOf (uc : UC) (s : List Char) :
+    table (lexedOf uc s) = (tokenize uc s).map fun t => (some (synKind t), some t.text) := by
+  apply List.ext_getElem
+  · simp [table, lexedOf_len]
+  · intro i h1 h2
+    have hi : i < (tokenize uc s).length := by simpa using h2
+    simp [table, lexedOf_kindAt uc s i hi, lexedOf_textAt uc s i hi]
+
+/-- the non-trivia entries `(kind, text)` of the token table, in order -/
+def nonTrivia (l : LexedStr) : List (SyntaxKind × List Char) :=
+  (table l).filterMap fun e =>
+    match e.1, e.2 with
+    | some k, some t => if k.isTrivia then none else some (k, t)
+    | _, _ => none
+
+theorem nonTrivia_lexedOf (uc : UC) (s : List Char) :
+    nonTrivia (lexedOf uc s) =
+      ((tokenize uc s).filter (fun t => !(synKind t).isTrivia)).map fun t => (synKind t, t.text) := by
+  rw [nonTrivia, table_lexedOf]
+  induction tokenize uc s with
+  | nil => rfl
+  | cons t ts ih =>
+    simp only [List.map_cons, List.filterMap_cons, List.filter_cons]
+    cases h : (synKind t).isTrivia <;> simp [ih]
+
+/-- `LexedStr.error` is empty iff no token carries an error flag -/
+theorem specErrors_nil_iff (ts : List Token) (idx : Nat) :
+    specErrors idx ts = [] ↔ ∀ t ∈ ts, (errMsg t).isEmpty = true := by
+  induction ts generalizing idx with
+  | nil => simp [specErrors]
+  | cons t ts ih =>
+    simp only [specErrors, List.append_eq_nil_iff, ih, List.mem_cons, forall_eq_or_imp]
+    constructor
+    · rintro ⟨h1, h2⟩
+      refine ⟨?_, h2⟩
+      cases h : (errMsg t).isEmpty with
+      | true => rfl
+      | false => simp [h] at h1
+    · rintro ⟨h1, h2⟩
+      exact ⟨by simp [h1], h2⟩
+
 end Oq3.Lemmas.Lexed
